@@ -65,6 +65,9 @@ class Report:
         self.only = None         # replay filter (rule, construct, token)
         self.explanation = ''
         self.not_decided = []
+        self.write = True
+        self.violations = []
+        self.matched = []
 
     # ------------------------------------------------------------------ recording
     def rule(self, rid, text, floor=None):
@@ -141,7 +144,8 @@ class Report:
                        % (self.prop, o.rule, o.construct, o.token, k.get('what', o.detail)))
         replay_dir = os.path.join(EVIDENCE_DIR, self.prop + '.replay')
         vio_lines = []
-        if violations and not self.errors:
+        self.violations, self.matched = violations, matched
+        if violations and not self.errors and self.write:
             os.makedirs(replay_dir, exist_ok=True)
             for i, o in enumerate(sorted(violations, key=lambda o: o.key)):
                 rp = os.path.join(replay_dir, '%d.json' % i)
@@ -161,7 +165,8 @@ class Report:
         elif violations:
             code = 1
         out.extend(vio_lines)
-        self.write_evidence(violations, matched, code)
+        if self.write:
+            self.write_evidence(violations, matched, code)
         if not self.quiet:
             print('\n'.join(out))
             print('%s tier=%s: %d obligations (%d discharged), %d known finding(s), %d violation(s), exit %d, %.2fs'
